@@ -13,6 +13,15 @@ def handle : List String → Option String
       some (showRats (padEdges (← parseList? parseRat? ys) (← pad.toNat?) (← wl.toNat?) (← wr.toNat?)))
   | ["c18.pad2d", pr, pc, wt, wb, wl, wr, m] => do
       some (showMat (extrapolate2d (← parseMat? m) (← pr.toNat?) (← pc.toNat?) (← wt.toNat?) (← wb.toNat?) (← wl.toNat?) (← wr.toNat?)))
+  | ["c18.pad2dspec", pad, win, m] => do
+      let w ← if win = "none" then some none else (parseList? parseInt? win).map some
+      match padEdges2dExtrap (← parseMat? m) (← parseList? parseInt? pad) w with
+      | .ok out => some ("ok " ++ showMat out)
+      | .notImplemented => some "NotImplementedError"
+      | .valueError => some "ValueError"
+  | ["c18.planar", a, b, c, mm, nn, pr, pc, wt, wb, wl, wr] => do
+      some (showMat (planarClamped (← parseRat? a) (← parseRat? b) (← parseRat? c) (← mm.toNat?) (← nn.toNat?)
+        (← pr.toNat?) (← pc.toNat?) (← wt.toNat?) (← wb.toNat?) (← wl.toNat?) (← wr.toNat?)))
   | ["c18.conv", p, padded, kernel] => do
       some (showRats (paddedConvolveCore (← parseList? parseRat? padded) (← parseList? parseRat? kernel) (← p.toNat?)))
   | ["c18.convpad", n, k] => do some (toString (convPadding (← n.toNat?) (← k.toNat?)))
